@@ -39,17 +39,19 @@ func (cs *graphCase) keyID() string {
 }
 
 type runOpts struct {
-	index        bool // call ChromaticIndex
-	polyDense    bool
-	polySparse   bool
-	allOrders    bool // GreedyColor on all n! orders
-	seededOrders int
-	rng          *engine.Rng
-	reps         map[string]bool // representations to run (nil: all five)
-	fixedKs      bool            // IsKColorable only for the k listed in ks (else every k in 0..n+1)
-	ks           []int
-	noChi        bool // skip ChromaticNumber (lower-bound proof out of reach for a correct implementation)
-	noCliques    bool // skip AllMaximalCliques (too many cliques)
+	index           bool // call ChromaticIndex
+	polyDense       bool
+	polySparse      bool
+	allOrders       bool // GreedyColor on all n! orders
+	seededOrders    int
+	rng             *engine.Rng
+	reps            map[string]bool // representations to run (nil: all five)
+	fixedKs         bool            // IsKColorable only for the k listed in ks (else every k in 0..n+1)
+	ks              []int
+	noChi           bool    // skip ChromaticNumber (lower-bound proof out of reach for a correct implementation)
+	noCliques       bool    // skip AllMaximalCliques (too many cliques)
+	extraOrders     [][]int // further GreedyColor orders
+	extraOrderNames []string
 }
 
 // Suppression of repeated reports: only the FIRST witness of each (API, kind)
@@ -321,13 +323,18 @@ func runCase(c *engine.Ctx, cs *graphCase, opt runOpts) {
 	}
 	// vertex orders for GreedyColor
 	var orders [][]int
+	var orderNames []string
 	if opt.allOrders {
 		orders = allPermutations(n)
 		c.Obs("greedy:all_orders_sets", 1)
 	} else {
 		orders = append(orders, identity(n), reversal(n), smallestLast(g))
+		orderNames = append(orderNames, "identity", "reversed", "smallest-last")
+		orders = append(orders, opt.extraOrders...)
+		orderNames = append(orderNames, opt.extraOrderNames...)
 		for k := 0; k < opt.seededOrders; k++ {
 			orders = append(orders, opt.rng.Perm(n))
+			orderNames = append(orderNames, fmt.Sprintf("seeded#%d", k))
 		}
 	}
 	for _, rp := range buildReprs(c, cs, opt.rng, opt.reps) {
@@ -341,6 +348,11 @@ func runCase(c *engine.Ctx, cs *graphCase, opt runOpts) {
 		if why != "" {
 			// the value is not a representation of this graph: not C09's case (C05/C06)
 			c.Obs("rep_unusable:"+rp.name, 1)
+			if rp.name == "dense" || rp.name == "sparse" {
+				// a struct filled directly by the harness does not read back as
+				// the graph: nothing can be judged on it, and that must not pass silently
+				c.Inconclusive(fmt.Sprintf("the %s value of %s does not read back as the model (%s): its invariants were not judged", rp.name, cs.keyID(), why))
+			}
 			c.Sample("rep_unusable:"+rp.name, map[string]interface{}{"graph": cs.keyID(), "how": rp.how, "why": why})
 			continue
 		}
@@ -370,7 +382,7 @@ func runCase(c *engine.Ctx, cs *graphCase, opt runOpts) {
 			j.chromaticIndex(rp.h)
 		}
 		j.degeneracy(rp.h)
-		j.greedy(rp.h, orders)
+		j.greedy(rp.h, orders, orderNames)
 		j.properColouringPredicate(rp.h, opt.rng)
 		if eg, isEd := rp.h.(graph.EditableGraph); isEd {
 			if (rp.name == "dense" && opt.polyDense) || (rp.name == "sparse" && opt.polySparse) {
@@ -412,25 +424,22 @@ func allPermutations(n int) [][]int {
 func smallestLast(g *rg.G) []int {
 	n := g.N
 	removed := make([]bool, n)
+	deg := g.Degrees() // degrees in the graph that is left
 	order := make([]int, n)
 	for k := n - 1; k >= 0; k-- {
 		best, bv := 1<<30, -1
 		for v := 0; v < n; v++ {
-			if removed[v] {
-				continue
-			}
-			d := 0
-			for u := 0; u < n; u++ {
-				if !removed[u] && u != v && g.Has(u, v) {
-					d++
-				}
-			}
-			if d < best {
-				best, bv = d, v
+			if !removed[v] && deg[v] < best {
+				best, bv = deg[v], v
 			}
 		}
 		removed[bv] = true
 		order[k] = bv
+		for u := 0; u < n; u++ {
+			if !removed[u] && g.Has(u, bv) {
+				deg[u]--
+			}
+		}
 	}
 	return order
 }
@@ -660,7 +669,7 @@ func (j *judge) chromaticNumber(h graph.Graph) {
 		return
 	}
 	if p := checkVertexColouring(j.cs.g, col, r.chi, true); p != "" {
-		j.violation("ChromaticNumber", "colouring", "", nil, fmt.Sprintf("chi=%d, colouring %v: %s", got, col, p), fmt.Sprintf("a proper colouring using exactly the colours 0..%d", r.chi-1))
+		j.violation("ChromaticNumber", "colouring", "", nil, fmt.Sprintf("%s (chi=%d, colouring %v)", p, got, col), fmt.Sprintf("a proper colouring using exactly the colours 0..%d", r.chi-1))
 	}
 }
 
@@ -699,7 +708,7 @@ func (j *judge) kColorable(h graph.Graph, ks []int) {
 		}
 		c.Obs("IsKColorable:k>=chi(witness)", 1)
 		if p := checkVertexColouring(j.cs.g, col, k, false); p != "" {
-			j.violation("IsKColorable", "colouring", kk, extra, fmt.Sprintf("true, %v: %s", col, p), fmt.Sprintf("a proper colouring with colours in 0..%d", k-1))
+			j.violation("IsKColorable", "colouring", kk, extra, fmt.Sprintf("%s (true, %v)", p, col), fmt.Sprintf("a proper colouring with colours in 0..%d", k-1))
 			return
 		}
 	}
@@ -740,11 +749,17 @@ func (j *judge) chromaticIndex(h graph.Graph) {
 			return
 		}
 	}
+	if got > 255 {
+		// the documented result type is []byte: more than 255 colours cannot be
+		// written down in it.  Recorded, not judged.
+		c.Obs("chi_index:witness_not_judged(more than 255 colours do not fit the documented []byte)", 1)
+		return
+	}
 	// the witness certifies "at most got"; with the reference value it is optimal
 	c.Eval(1)
 	c.Obs("edge_colouring_witness_checked", 1)
 	if p := checkEdgeColouring(g, ce, got); p != "" {
-		j.violation("ChromaticIndex", "colouring", "", nil, fmt.Sprintf("chi'=%d, edge array %v: %s", got, ce, p),
+		j.violation("ChromaticIndex", "colouring", "", nil, fmt.Sprintf("%s (chi'=%d, edge array %v)", p, got, ce),
 			fmt.Sprintf("edge array of length n(n-1)/2 = %d (edge ij at j(j-1)/2+i) with 0 on non-edges and a proper edge colouring with exactly the colours 1..%d", g.N*(g.N-1)/2, got))
 	}
 }
@@ -768,24 +783,27 @@ func (j *judge) degeneracy(h graph.Graph) {
 		return
 	}
 	if p := checkDegeneracyOrder(j.cs.g, order, got); p != "" {
-		j.violation("Degeneracy", "order", "", nil, fmt.Sprintf("d=%d, order %v: %s", got, order, p), fmt.Sprintf("a permutation of the vertices in which each vertex is preceded by at most %d neighbours", got))
+		j.violation("Degeneracy", "order", "", nil, fmt.Sprintf("%s (d=%d, order %v)", p, got, order), fmt.Sprintf("a permutation of the vertices in which each vertex is preceded by at most %d neighbours", got))
 	}
 }
 
 // ---------------------------------------------------------------------------
 // GreedyColor
 
-func (j *judge) greedy(h graph.Graph, orders [][]int) {
+func (j *judge) greedy(h graph.Graph, orders [][]int, names []string) {
 	c := j.c
 	g := j.cs.g
 	n := g.N
-	for _, order := range orders {
+	for oi, order := range orders {
 		var got int
 		var col []int
 		ord := append([]int(nil), order...)
 		c.Obs("calls:GreedyColor", 1)
 		c.Eval(1)
 		ok := fmt.Sprintf("order=%v", order)
+		if len(order) > 16 && oi < len(names) {
+			ok = "order=" + names[oi] // the order itself is in the detail
+		}
 		extra := map[string]interface{}{"order": order}
 		if pi := c.Call(j.callKey("GreedyColor")+"|"+ok, func() { got, col = graph.GreedyColor(h, ord) }); pi != nil {
 			j.panicked("GreedyColor", ok, extra, pi)
@@ -890,6 +908,9 @@ func (j *judge) properColouringPredicate(h graph.Graph, r *engine.Rng) {
 		}
 		c.Eval(1)
 		w := fmt.Sprintf("colouring=%v", t.col)
+		if len(t.col) > 16 {
+			w = "colouring=" + t.what // the colouring itself is in the detail
+		}
 		if pi := c.Call(j.callKey("IsProperColouring")+"|"+w, func() { got = graph.IsProperColouring(h, col) }); pi != nil {
 			j.panicked("IsProperColouring", w, extra, pi)
 			return
